@@ -12,6 +12,8 @@ substitution `subst` fills every reference with the value of its name; `tokens` 
 template (literal chars and marker groups).  Props/C10 proves that the sequential code of part 1 computes the
 simultaneous view of part 2 under stated hypotheses (and exhibits the inputs where it does not).
 -/
+import RioModel.Generated.Consts
+
 namespace Rio.Marker
 
 abbrev Str := List Char
@@ -94,10 +96,14 @@ def sortByLen {β : Type} : List (Str × β) → List (Str × β)
 /-- `marker.format()` -/
 def fmt (name : Str) : Str := '@' :: name
 
-/-- `format!("(?:{})", re)` -/
-def groupRegex (re : Str) : Str := "(?:".toList ++ re ++ [')']
+/-- `format!("(?:{})", re)` — the pieces of the format string are regenerated from the source
+(tools/consts.d/marker.py). -/
+def groupRegex (re : Str) : Str :=
+  Rio.Consts.markerGroupRegexFormat.1.toList ++ re ++ Rio.Consts.markerGroupRegexFormat.2.toList
 /-- `format!("(?P<{}>{})", name, re)` -/
-def groupCapture (name re : Str) : Str := "(?P<".toList ++ name ++ ['>'] ++ re ++ [')']
+def groupCapture (name re : Str) : Str :=
+  Rio.Consts.markerGroupCaptureFormat.1.toList ++ name ++ Rio.Consts.markerGroupCaptureFormat.2.1.toList ++ re ++
+    Rio.Consts.markerGroupCaptureFormat.2.2.toList
 
 structure Build where
   regex : Str
